@@ -122,7 +122,16 @@ def run_case(mod, case):
                 "repository code raised %r where the property requires a result" % (e,),
                 detail=traceback.format_exc()[-2000:],
             )
-        raise HarnessError("harness exception: %r\n%s" % (e, traceback.format_exc()))
+        dump = ""
+        try:  # keep the input that broke the harness, for debugging only (never a replay, never a violation)
+            d = os.path.join(OUT, "replays", "harness")
+            os.makedirs(d, exist_ok=True)
+            dump = os.path.join(d, "%s-%d.json" % (getattr(mod, "ID", "x"), os.getpid()))
+            with open(dump, "w") as f:
+                json.dump({"property": getattr(mod, "ID", None), "case": sanitize(case), "error": repr(e)}, f)
+        except Exception:
+            dump = ""
+        raise HarnessError("harness exception: %r (case kept in %s)\n%s" % (e, dump, traceback.format_exc()))
 
 
 # ---------------------------------------------------------------- known findings
